@@ -328,6 +328,175 @@ def d5b(chk, prog):
     tb.done("on exactly symmetric data the biweight midvariance is not the documented 1.4826 * MAD fallback")
 
 
+def d3d(chk, prog):
+    """savgol for every signal length: the window / order it hands scipy satisfy scipy's stated preconditions, one value per input comes back"""
+    from ..abstools import Interp, Model, Table, Vec, W
+    from ..absval import Raised
+    fi = prog.fn("cnvlib.smoothing.savgol")
+    tb = Table(chk, "pad-unpad", "savgol on constant signals of 2..40 values, weighted or not, default / wide / iterated windows: scipy's preconditions (polyorder < window_length <= len(signal)) hold, "
+                    "one value per input is returned", fi.loc(), fi.qn)
+    for n, wts, (label, kw) in itertools.product((2, 3, 4, 5, 6, 8, 15, 40), (False, True),
+                                               (("defaults", {}), ("3 iterations", dict(n_iter=3)), ("window 11 order 5", dict(window_width=11, order=5)), ("total width 5", dict(total_width=5)), ("fraction 0.3", dict(total_width=Fr(3, 10))))):
+        W.reset()
+        model = Model()
+        calls = []
+
+        def filt(it, y, window, order, mode="interp", calls=calls, **k):
+            calls.append(("savgol_filter", len(y.v), window, order))
+            if not order < window:
+                raise Raised("ValueError", "scipy.signal.savgol_filter: polyorder must be less than window_length.")
+            if mode == "interp" and window > len(y.v):
+                raise Raised("ValueError", "scipy.signal.savgol_filter: If mode is 'interp', window_length must be less than or equal to the size of x.")
+            return y
+
+        def coeffs(it, window, order, calls=calls, **k):
+            calls.append(("savgol_coeffs", window, order))
+            if not order < window:
+                raise Raised("ValueError", "scipy.signal.savgol_coeffs: polyorder must be less than window_length.")
+            return Vec([Fr(1, window)] * window)
+        model.ext["scipy.signal.savgol_filter"] = filt
+        model.ext["scipy.signal.savgol_coeffs"] = coeffs
+        model.prims["cnvlib.smoothing.convolve_weighted"] = lambda it, window, signal, weights, n_iter=1: (signal, weights)
+        it = Interp(prog, model)
+        x = Vec([Fr(3)] * n)
+        x.exact = True
+        w = Vec([Fr(1)] * n)
+        w.exact = True
+        kws = dict(kw)
+        if wts:
+            kws["weights"] = w
+        out = tb.guard(lambda: it.run(fi.qn, [x], kws), f"n={n} weighted={wts} {label}")
+        if out is None:
+            continue
+        ok = isinstance(out, Vec) and len(out.v) == n and bool(calls)
+        tb.cell(ok, dict(n=n, weighted=wts, parameters=label, scipy_calls=calls, returned=len(out.v) if isinstance(out, Vec) else repr(out)))
+    tb.done("savgol hands scipy a polynomial order / window it rejects (ValueError instead of a smoothed signal), or returns another number of values than it was given")
+
+
+def d6(chk, prog, names=None):
+    chk.clause("D6" if names is None else "C19-D6", "published formulas: the estimators, interpreted through their decorators on literal vectors with exact rational arithmetic, equal an independent transcription of their formula")
+    from ..abstools import Interp, Table, W, same, T, t_mul, Term, Undecided
+    from ..absval import f_sqrt
+    from ..absval import Closure, Raised
+    from ..estyping import const_model, Arr
+    vectors = [[0, 0, 0, 1], [0, 0, 0, 0, 1, 4], [0, 1, 2, 3, 10], [Fr(1, 2), 1, Fr(3, 2), 40], [-1, -1, -1, 0, -1, Fr(-1, 2)], [2, 2, 2], [1, 2], [0, 0, 1, 1, 1, 5], [-3, 0, 0, 0, 3],
+               [0, 1, 3, 7], [5, 1, 4, 1, 3, 9, 2, 6, 5, 3, 5, 8]]
+    weights = {4: [1, 1, 2, 1], 6: [1, 3, 1, 1, 2, 1], 5: [1, 1, 2, 1, 1], 3: [2, 1, 1], 2: [1, 3], 12: [1, 2, 1, 1, 1, 3, 1, 1, 2, 1, 1, 1]}
+
+    def med(v):
+        s_ = sorted(v)
+        n = len(s_)
+        return s_[n // 2] if n % 2 else (s_[n // 2 - 1] + s_[n // 2]) / 2
+
+    def pct(v, q):
+        s_ = sorted(v)
+        pos = Fr(q, 100) * (len(s_) - 1)
+        lo = int(pos)
+        return s_[lo] if pos == lo else s_[lo] + (pos - lo) * (s_[lo + 1] - s_[lo])
+
+    def wmed(a, w):
+        pairs = sorted(zip(a, w), key=lambda p_: p_[0])
+        half = Fr(sum(w), 2)
+        for x, wt in pairs:
+            if wt > half:
+                return x
+        cum = 0
+        for i, (x, wt) in enumerate(pairs):
+            cum += wt
+            if cum >= half:
+                if cum == half and i + 1 < len(pairs):
+                    return (x + pairs[i + 1][0]) / 2
+                return x
+
+    def biloc(a, initial=None, c=6, eps=Fr(1, 1000), max_iter=5):
+        # Tukey's biweight location (Mosteller & Tukey 1977; Beers, Flynn & Gebhardt 1990): scale = MAD about the current estimate, weights (1 - u^2)^2
+        if initial is None:
+            initial = med(a)
+        result = initial
+        for _ in range(max_iter):
+            d = [x - initial for x in a]
+            mad = med([abs(x) for x in d])
+            u = [x / max(c * mad, eps) for x in d]
+            wt = [(1 - y * y) ** 2 for y in u]
+            keep = [i for i in range(len(a)) if wt[i] < 1]
+            tot = sum(wt[i] for i in keep)
+            result = initial if tot == 0 else initial + sum(d[i] * wt[i] for i in keep) / tot
+            if abs(result - initial) <= eps:
+                break
+            initial = result
+        return result
+
+    SD = Fr(14826, 10000)
+
+    def bivar(a, c=9, eps=Fr(1, 1000)):
+        initial = biloc(a)
+        d = [x - initial for x in a]
+        mad = med([abs(x) for x in d])
+        u = [x / max(c * mad, eps) for x in d]
+        keep = [i for i in range(len(a)) if abs(u[i]) < 1]
+        if sum(u[i] for i in keep) == 0:
+            return mad * SD                              # exactly symmetric (or tied) data: the stated fallback to the MAD
+        num = sum(d[i] ** 2 * (1 - u[i] ** 2) ** 4 for i in keep)
+        den = sum((1 - u[i] ** 2) * (1 - 5 * u[i] ** 2) for i in keep)
+        return ("sqrt", len(keep) * num / (den * den))
+
+    def qn(a):
+        n = len(a)
+        q = pct([abs(a[i] - a[j]) for i in range(n) for j in range(i + 1, n)], 25)
+        return q / (Fr(1392, 1000) if n <= 10 else 1 + Fr(4, n))           # the docstring's finite-sample factors (n <= 10; fitted 1 + 4/n up to 400)
+
+    def wstd(a, w):
+        m = sum(x * y for x, y in zip(a, w)) / sum(w)
+        return ("sqrt", sum(y * (x - m) ** 2 for x, y in zip(a, w)) / sum(w))
+
+    def gapper(a):
+        s_ = sorted(a)
+        n = len(s_)
+        return ("sqrt-pi", sum((s_[i] - s_[i - 1]) * i * (n - i) for i in range(1, n)) / (n * (n - 1)))
+
+    oracles = [("biweight_location", False, biloc, "Tukey's biweight location about the median, MAD scale, c = 6"),
+               ("biweight_midvariance", False, bivar, "biweight midvariance about the biweight location, c = 9 (MAD fallback on symmetric / tied data)"),
+               ("median_absolute_deviation", False, lambda a: SD * med([abs(x - med(a)) for x in a]), "1.4826 * median |x - median|"),
+               ("interquartile_range", False, lambda a: pct(a, 75) - pct(a, 25), "75th - 25th percentile"),
+               ("q_n", False, qn, "first quartile of the pairwise distances / Cn"),
+               ("gapper_scale", False, gapper, "Wainer & Thissen gapper: sum gaps * i (n - i) * sqrt(pi) / (n (n - 1))"),
+               ("weighted_median", True, wmed, "lower weighted median, midpoint when exactly half the weight lies on each side"),
+               ("weighted_mad", True, lambda a, w: SD * wmed([abs(x - wmed(a, w)) for x in a], w), "1.4826 * weighted median |x - weighted median|"),
+               ("weighted_std", True, wstd, "sqrt of the weighted mean squared deviation from the weighted mean")]
+    pi = None
+    for name, weighted, oracle, what in oracles:
+        if names is not None and name not in names:
+            continue
+        fi = prog.fn(f"{DESC}.{name}")
+        tb = Table(chk, "est-const", f"{name} on {len(vectors)} literal vectors (majority tied, outlier, symmetric, constant, two values, 12 values) == {what}", fi.loc(), fi.qn + "::formula")
+        for v in vectors:
+            if name == "gapper_scale" and len(set(v)) == 1:
+                continue
+            W.reset()
+            it = Interp(prog, const_model())
+            a = [Fr(x) for x in v]
+            args = [Arr(a)] + ([Arr([Fr(x) for x in weights[len(v)]])] if weighted else [])
+            try:
+                got = it.call(Closure(fi.node, {}, fi.mod, fi.qn), args, {})
+            except Undecided as e:
+                tb.undecided.append(f"data {v}: {e}")
+                continue
+            except Raised as e:
+                tb.cell(False, dict(data=[str(x) for x in v], raised=str(e)))
+                continue
+            want = oracle(a, [Fr(x) for x in weights[len(v)]]) if weighted else oracle(a)
+            if isinstance(want, tuple) and want[0] == "sqrt":
+                wt_ = f_sqrt(T(want[1]))
+            elif isinstance(want, tuple):
+                if pi is None:
+                    pi = it.lib.ext_attr(it, "np", "pi")
+                wt_ = t_mul(T(want[1]), f_sqrt(T(pi)))
+            else:
+                wt_ = T(want)
+            tb.cell(got is not None and same(T(got), wt_), dict(data=[str(x) for x in v], weights=weights[len(v)] if weighted else None, got=repr(got)[:70], want=repr(wt_)[:70]))
+        tb.done(f"{name} is not {what}: it disagrees with an independent transcription of the formula on literal data")
+
+
 def run(chk):
     prog = chk.prog
     chk.trust("Python grammar via ast", "numpy reductions: median / percentile / mean / average of translated data translate, differences do not (estyping.py table)",
@@ -337,8 +506,10 @@ def run(chk):
     d3(chk, prog)
     d3b(chk, prog)
     d3c(chk, prog)
+    d3d(chk, prog)
     d45(chk, prog)
     d5b(chk, prog)
+    d6(chk, prog)
 
 
 _D = "cnvlib/descriptives.py"
